@@ -266,9 +266,9 @@ Lemma quiescent_sums s :
 Proof.
   unfold quiescent. intros H. repeat (apply andb_true_iff in H; destruct H as [H ?]).
   apply Nat.eqb_eq in H. apply Nat.eqb_eq in H2. repeat split; try assumption.
-  - eapply sumf_zero_forallb; [|eassumption]. intros d Hd. unfold ld. destruct (dlive d); [discriminate|reflexivity].
-  - eapply sumf_zero_forallb; [|eassumption]. intros x Hx. unfold hc. destruct (pc x); try discriminate; reflexivity.
-  - eapply sumf_zero_forallb; [|eassumption]. intros x Hx. unfold oc. destruct (pc x); try discriminate; reflexivity.
+  - eapply sumf_zero_forallb; [|eassumption]. intros d. unfold ld. destruct d; cbn; congruence.
+  - eapply sumf_zero_forallb; [|eassumption]. intros x. unfold hc. destruct (pc x); cbn; congruence.
+  - eapply sumf_zero_forallb; [|eassumption]. intros x. unfold oc. destruct (pc x); cbn; congruence.
 Qed.
 
 Theorem closed_at_quiescence g ls s :
